@@ -103,13 +103,12 @@ func (interp *Interpreter) SingleStepInvokeDecodedBlocks(pc ProgramCounter) (Exi
 			return ExitPanic, 0
 		}
 
-		var startIdx, endIdx int
+		var instrs []InstrMeta
 
 		if block := prog.BlockAt[pc]; block != nil {
-			startIdx = block.InstrStart
-			endIdx = block.InstrEnd
+			instrs = instrSlice[block.InstrStart:block.InstrEnd]
 		} else if idx := prog.InstrIdxAt[pc]; idx >= 0 {
-			startIdx = int(idx)
+			startIdx, endIdx := int(idx), int(idx)
 			foundTerminator := false
 			for endIdx = startIdx; endIdx < len(instrSlice); endIdx++ {
 				if IsBlockTerminator(instrSlice[endIdx].Opcode) {
@@ -121,11 +120,15 @@ func (interp *Interpreter) SingleStepInvokeDecodedBlocks(pc ProgramCounter) (Exi
 			if !foundTerminator {
 				return ExitPanic, 0
 			}
+			instrs = instrSlice[startIdx:endIdx]
 		} else {
-			return ExitPanic, 0
+			// pc lies inside the code but the scan at deblob time did not come by it: its
+			// bitmask bit is clear (a counter chosen by the invoker, or the address 25 bytes
+			// behind a terminator whose skip is clamped at 24). The machine executes the
+			// instruction found there like any other (A.1), so it is decoded now.
+			instrs = []InstrMeta{prog.decodeInstr(pc)}
 		}
 
-		instrs := instrSlice[startIdx:endIdx]
 		branchTaken := false
 		for i := range instrs {
 			instr := &instrs[i]
